@@ -47,7 +47,8 @@ let body lines =
        let pagei = to_i c.page and sbi = to_i c.sb in
        let ar = { cur = unit_ * 16; recycled = []; recycle = false } in
        let s = ref (init c) in
-       let other = ref (init c) and cur_pool = ref 0 in     (* two pools on ONE policy object: two model states, one arena *)
+       let other = ref (init c) and cur_pool = ref 0 in
+       let bulk : n list ref = ref [] and bulk_h = ref 0 in     (* two pools on ONE policy object: two model states, one arena *)
        let slots : (int, n) Hashtbl.t = Hashtbl.create 64 in
        let slot i = try Hashtbl.find slots i with Not_found -> N0 in
        (* the policy's answer for this op, should it call map(len) *)
@@ -115,6 +116,26 @@ let body lines =
             with Stop -> quiet := false; raise Stop);
             quiet := false;
             Printf.printf "= churn used=%d\n" (to_i !s.used)
+          | ["fill"; k; cnt] ->
+            let cnt = int_of_string cnt in
+            quiet := true;
+            (try
+              for _ = 1 to cnt do
+                let (o, commit) = env_for (fun e -> Alloc (n_of_string k, e)) "ok" in
+                (match exec o commit with
+                 | RPtr p -> bulk := p :: !bulk; bulk_h := (!bulk_h * 31 + to_i p) land 0xffffffff
+                 | _ -> ())
+              done
+            with Stop -> quiet := false; raise Stop);
+            quiet := false;
+            Printf.printf "= fill %d %d used=%d\n" (List.length !bulk) !bulk_h (to_i !s.used);
+            bulk_h := 0
+          | ["drain"] ->
+            quiet := true;
+            (try List.iter (fun p -> ignore (exec (Free p) (fun () -> ()))) !bulk
+             with Stop -> quiet := false; raise Stop);
+            bulk := []; quiet := false;
+            Printf.printf "= drain used=%d\n" (to_i !s.used)
           | ["f"; sl] ->
             ignore (exec (Free (slot (int_of_string sl))) (fun () -> ()));
             Printf.printf "= unit used=%d\n" (to_i !s.used);
